@@ -21,12 +21,12 @@ package main
 // hangs. The Lean driver (Driver/HandshakeAuth.lean) computes the verdict of Model.HandshakeAuth for the same line.
 
 import (
-	"net"
 	"bytes"
 	"crypto"
 	"crypto/rand"
 	"fmt"
 	"io"
+	"net"
 	"strconv"
 	"strings"
 	"sync"
